@@ -241,7 +241,7 @@ class _EmptyCallable(_CallableObject):
 
 
 CALLABLE_FLAVOURS = ['function', 'lambda', 'partial_positional', 'partial_keyword', 'bound_method', 'callable_object', 'falsy_callable_object']
-VALUE_TYPES = ['int', 'int', 'float', 'bigint', 'small']
+VALUE_TYPES = ['int', 'int', 'float', 'bigint', 'small', 'mixed']
 FALSY = dict(mode=None, flag=False, k=0, tag='', opts=())
 TRUTHY = dict(mode='y', flag=True, k=2, tag='u', opts=(2, 3))
 
@@ -259,6 +259,10 @@ def make_callable(rng, ident):
                         32 * (mode == 'y') + 64 * (k == 2) + 128 * (tag == 'u') + 256 * (opts == (2, 3)))
         if vt == 'float':
             return v / 8.0 + 0.375
+        if vt == 'mixed':
+            # a Python int for equal arguments, a float otherwise (a normalised distance that returns 0 for identical strings): the
+            # result dtype is the caller's, not that of the first pair evaluated
+            return int(v) if str(a) == str(b) else v / 8.0 + 0.375
         if vt == 'bigint':
             return v * 2 ** 20 + (2 ** 53 + 1)
         if vt == 'small':
@@ -280,7 +284,8 @@ def make_callable(rng, ident):
         f = _CallableObject(spec)
     else:
         f = _EmptyCallable(spec)
-    dts = {'int': [np.int64, np.dtype(np.int64), int], 'float': [np.float64, np.dtype('float64'), float], 'bigint': [np.int64, np.dtype('int64')],
+    dts = {'int': [np.int64, np.dtype(np.int64), int], 'float': [np.float64, np.dtype('float64'), float], 'mixed': [np.float64, float],
+           'bigint': [np.int64, np.dtype('int64')],
            'small': [None, None, np.uint8, np.int16, np.dtype('uint8')]}[vt]
     return f, vt, dts, '%s returning %s values, (p, q, r) = %s' % (fl, vt, (p, q, r))
 
